@@ -3,6 +3,8 @@
 -/
 import UtreexoVerif.Driver.Arith
 import UtreexoVerif.Driver.Forest
+import UtreexoVerif.Driver.ProofOps
+import UtreexoVerif.Driver.ProofUpdate
 import UtreexoVerif.Driver.Alias
 import UtreexoVerif.Driver.Conc
 
@@ -22,6 +24,13 @@ def handleLine (line : String) : M Unit := do
   | "cupdate" :: rest => handleCUpdate line rest
   | "cundo" :: rest => handleCUndo line rest
   | ["cresync"] => count "cresync" line
+  | "pupdate" :: rest => handlePUpdate line rest
+  | "pundo" :: rest => handlePUndo line rest
+  | "addproof" :: rest => handleAddProof line rest
+  | "subset" :: rest => handleSubset line rest
+  | "missing" :: rest => handleMissing line rest
+  | "mapnodes" :: rest => handleMapNodes line rest
+  | "mapmissing" :: rest => handleMapMissing line rest
   | "alias" :: rest => handleAlias line rest
   | "later" :: rest => handleLater line rest
   | "aliasinfo" :: rest => handleAliasInfo line rest
